@@ -223,6 +223,7 @@ def reader_stores(prog, cd, rep, kinds, rule="segment-stores"):
 
 def run(prog, rep):
     cd = Codecs(prog)
+    cd.flag_errors(rep)
     rep.explanation = (
         "segments-derivation: each _segments property is the canonical numpy composition clump_unmasked(masked_invalid(x)); "
         "segments-single-source: table loop and data loops of _write iterate the same runs, rows are (start, stop-start), data "
@@ -230,9 +231,9 @@ def run(prog, rep):
         "np.empty buffer of a decoder receives a whole-buffer NaN store before its first partial store and before it escapes; "
         "segment-stores: decoder stores land on the run's own frames (symbolic index equality after substituting the writer's table)."
     )
-    kinds = segments_derivation(prog, cd, rep)
-    single_source(prog, cd, rep, kinds)
-    nan_prefill(prog, cd, rep)
-    reader_stores(prog, cd, rep, kinds)
+    kinds = rep.attempt(segments_derivation, prog, cd, rep) or []
+    rep.attempt(single_source, prog, cd, rep, kinds)
+    rep.attempt(nan_prefill, prog, cd, rep)
+    rep.attempt(reader_stores, prog, cd, rep, kinds)
     rep.trusted += ["numpy contract: masked_invalid + clump_unmasked return the maximal runs of non-NaN entries as increasing, disjoint, non-adjacent slices"]
     rep.not_decided += ["the numpy contract itself over all 2^n masks", "tracks whose components disagree on where the NaNs are"]
